@@ -228,6 +228,9 @@ func runWorkers(b *built, ps *propSpec, sc subCheck, o checkOpts, outDir string,
 			if digests {
 				env = append(env, "VERIF_DIGESTS=1")
 			}
+			if kj := knownJSON(kfs, ps.ID); kj != "" {
+				env = append(env, "VERIF_KNOWN="+kj)
+			}
 			cmd.Env = env
 			cmd.Dir = b.work
 			done := make(chan error, 1)
@@ -274,6 +277,24 @@ func runWorkers(b *built, ps *propSpec, sc subCheck, o checkOpts, outDir string,
 	}
 	wg.Wait()
 	return results, dead
+}
+
+func knownJSON(kfs []knownFinding, prop string) string {
+	type k struct {
+		Oracle string `json:"oracle"`
+		MsgRe  string `json:"msg_regexp"`
+	}
+	var ks []k
+	for _, f := range kfs {
+		if f.Status == "open" && f.Property == prop {
+			ks = append(ks, k{f.Oracle, f.MsgRe})
+		}
+	}
+	if len(ks) == 0 {
+		return ""
+	}
+	b, _ := json.Marshal(ks)
+	return string(b)
 }
 
 func gomaxprocs() string {
